@@ -47,10 +47,38 @@ def gen_case(rng, tier):
     return start, inc, n
 
 
-def impl_near(start, inc, n):
+def prior_requests(rng, start, inc, n):
+    """requests made on the same object before the one that is judged: the table of a request is a function of
+    that request alone.  Nearly equal requests (a scan line moved by a few steps at 20 km, a step changed in
+    the sixth digit) are what a grid kept from the previous call is mistaken for."""
+    u = rng.random()
+    if u < 0.55:
+        return []
+    out = []
+    for _ in range(rng.choice([1, 1, 2])):
+        rel = 10 ** rng.uniform(-9, -3)
+        st = [x * (1 + rel * rng.choice([-1, 1])) if x else rel * rng.choice([-1, 1, 0]) for x in start]
+        ic = [x * (1 + rel * rng.choice([-1, 0, 1])) for x in inc]
+        if abs(st[0]) < 1e-9 and abs(st[1]) < 1e-9:
+            st[0] = 0.3
+        out.append(['near', st, ic, list(n) if rng.random() < 0.8 else [1, 1, 1]])
+    if rng.random() < 0.3:
+        out.append(['far', [0.0, 10.0, 3], [0.0, 90.0, 2]])
+    if rng.random() < 0.3:
+        out.insert(0, ['near', list(start), list(inc), list(n)])      # the very same request before
+    return out
+
+
+def impl_near(start, inc, n, prior=()):
+    from mininec.mininec import Angle
     r = run_main(BASE, want_mininec=True)
     m = r['m']
     m.compute()
+    for pr in prior:
+        if pr[0] == 'near':
+            m.compute_near_field(pr[1], pr[2], pr[3])
+        else:
+            m.compute_far_field(Angle(*pr[1]), Angle(*pr[2]))
     m.compute_near_field(start, inc, n)
     coords = np.array(m.near_field_coord).T
     return m, coords, len(m.e_field), len(m.h_field)
@@ -83,9 +111,9 @@ def near_argv(start, inc, n):
 def replay(rp):
     if rp.get('kind') == 'near':
         start, inc, n = rp['start'], rp['inc'], rp['n']
-        m, coords, ne, nh = impl_near(start, inc, n)
+        m, coords, ne, nh = impl_near(start, inc, n, rp.get('prior', ()))
         bad = prop_near(start, inc, n, coords, ne, nh)
-        print('replay near', start, inc, n, '->', bad or 'property holds')
+        print('replay near', start, inc, n, 'after', rp.get('prior', []), '->', bad or 'property holds')
         return 1 if bad else 0
     if rp.get('kind') == 'far':
         from mininec.mininec import Angle
@@ -140,8 +168,17 @@ def run(ck):
               ([0.3, 0.0, 1.0], [0.1, 0.0, 0.0], [3, 2, 1]),
               ([0.3, 0.2, 1.0], [0.0, 0.0, 0.5], [2, 2, 2])]
     cases = corpus + [gen_case(rng, ck.tier) for _ in range(N_near)]
-    for (start, inc, n) in cases:
-        m, coords, ne, nh = impl_near(start, inc, n)
+    # far-away scan lines (relative differences between neighbouring requests of 1e-6 and less)
+    for k in range(6 if ck.tier == 'quick' else 40):
+        x0 = rng.choice([2000.0, 20000.0, 1e5])
+        cases.append(([x0 + dec(rng), dec(rng), 10.0], [dec(rng) * 0.5, 0.0, 0.0], [rng.randint(2, 6), 1, 1]))
+    priors = {}
+    for ci, (start, inc, n) in enumerate(cases):
+        prior = prior_requests(rng, start, inc, n) if ci >= len(corpus) else []
+        priors[ci] = prior
+        if prior:
+            ck.count('near_after_other_requests')
+        m, coords, ne, nh = impl_near(start, inc, n, prior)
         ans = d.ask('grid near', *[f2b(x) for x in start + inc], *n)
         model = [b2f(t) for t in ans.split()]
         model = [tuple(model[i:i + 3]) for i in range(0, len(model), 3)]
@@ -153,7 +190,7 @@ def run(ck):
         same = (len(model) == len(impl) == ne == nh and
                 all(f2b(a) == f2b(b) for p, q in zip(model, impl) for a, b in zip(p, q)))
         if not same:
-            disagreements.append(dict(kind='near', start=start, inc=inc, n=n,
+            disagreements.append(dict(kind='near', start=start, inc=inc, n=n, prior=prior,
                                       model_points=len(model), impl_points=len(impl), e=ne, h=nh))
     # a few end-to-end reports: number of FIELD POINT blocks printed
     rep_cases = cases[:5] + cases[5:5 + (4 if ck.tier == 'quick' else 20)] + [c for c in cases[5:] if 0.0 in c[1]][:6]
@@ -205,7 +242,8 @@ def run(ck):
             disagreements.append(dict(kind='far', zen=z2, azi=a1, model_rows=len(model), impl_rows=len(rows), reuse_from=z1))
     ck.cov['rule'] = ('near-field grids (start, increment decimals with 1-3 digits incl. negative steps, counts 1..%d) and '
                       'far-field angle lists compared bit for bit between implementation and Lean model; '
-                      'non-trivial = more than one point; distinct = distinct parameter tuples' % (100 if ck.tier == 'thorough' else 40))
+                      'non-trivial = more than one point; distinct = distinct parameter tuples; 45 %% of the near-field requests are made on an '
+                      'object that has already answered other requests (nearly equal ones, the same one, a far field)' % (100 if ck.tier == 'thorough' else 40))
     ck.cov['explanation'] = 'theorems C16_* over any commutative ring; tie by bit-exact grid correspondence'
     ck.assumptions += ['IEEE rounding of start + k*inc is outside the theorems (stated over exact arithmetic); the tie is bit-exact on the sampled grids',
                        'numpy meshgrid/flatten semantics are modelled by flatMap order, checked by the correspondence']
@@ -217,10 +255,10 @@ def run(ck):
         for dg in disagreements:
             seen += 1
             if dg['kind'] == 'near':
-                m, coords, ne, nh = impl_near(dg['start'], dg['inc'], dg['n'])
+                m, coords, ne, nh = impl_near(dg['start'], dg['inc'], dg['n'], dg.get('prior', ()))
                 bad = prop_near(dg['start'], dg['inc'], dg['n'], coords, ne, nh, dg.get('report_points'))
                 if bad:
-                    ck.violation(dict(kind='near', start=dg['start'], inc=dg['inc'], n=dg['n'], observed=bad,
+                    ck.violation(dict(kind='near', start=dg['start'], inc=dg['inc'], n=dg['n'], observed=bad, prior=dg.get('prior', []),
                                       argv=near_argv(dg['start'], dg['inc'], dg['n']),
                                       required='exactly Nx*Ny*Nz points at start + k*increment'))
                     found = True
